@@ -126,9 +126,19 @@ def diff(exp, got, path=""):
 
 
 class Session:
-    def __init__(self, nixio, path, ranks, seed):
+    def __init__(self, nixio, path, ranks, seed, auto=True):
         self.nixio, self.path, self.ranks = nixio, path, ranks
         self.rnd = random.Random(seed)
+        self.auto = auto
+        self.now = 1000000000
+        sess = self
+
+        def fake_now():
+            return sess.now
+        import nixio.util as pkg
+        import nixio.util.util as mod
+        pkg.now_int = fake_now
+        mod.now_int = fake_now
         self.nf = nixio.File.open(path, nixio.FileMode.Overwrite)
         self.blk = self.nf.create_block("blk", "t")
         self.targets = {}
@@ -137,6 +147,13 @@ class Session:
         self.host = self.blk.create_data_array("host", "t", data=np.zeros((3, 3)))
         self.host_b = self.blk.data_arrays["host"]
         self.kept = []          # long-lived descriptor handles, one per dimension (from creation)
+        self.nf.auto_update_timestamps = auto
+
+    def stamps(self):
+        out = {"host": (self.host.created_at, self.host.updated_at)}
+        for t, h in self.targets.items():
+            out[t] = (h.created_at, h.updated_at)
+        return out
 
     def dim(self, i):
         r = self.rnd.random()
@@ -147,6 +164,7 @@ class Session:
 
     def apply(self, act):
         n = act["name"]
+        self.now += 7          # the clock moves between any two calls
         try:
             if n == "AppendDim":
                 host = self.host if self.rnd.random() < 0.5 else self.host_b
@@ -231,9 +249,10 @@ def replay_one(tx):
     h = zlib.crc32(json.dumps(tx["act"], sort_keys=True).encode()) + 7 * len(tx["hist"])
     seed = (opts["seed"] * 1000003 + h) % (2 ** 31)
     path = os.path.join(_W["dir"], "l%d.nix" % (_W["n"] % 3))
-    sess = Session(nixio, path, ranks, seed)
+    auto = opts.get("auto", True) if opts.get("auto") is not None else bool(seed % 2)
+    sess = Session(nixio, path, ranks, seed, auto=auto)
     act = tx["act"]
-    res = {"findings": [], "truncated": 0, "calls": 0}
+    res = {"findings": [], "truncated": 0, "calls": 0, "auto_off": 0 if auto else 1}
 
     def finding(stage, what, detail):
         owner = "C12" if act["out"] != "ok" and stage != "outcome" else "C05"
@@ -251,12 +270,28 @@ def replay_one(tx):
         if diff(expected(tx["from"], ranks), project(sess.host, sess.targets)):
             res["truncated"] = 1
             return res
+        # the descriptor handles kept since creation deliver their values once before the call (whatever a handle
+        # remembers about a linked vector is filled now)
+        if sess.kept:
+            project(sess.host, sess.targets, dimhandles=sess.kept)
+        stamps0 = sess.stamps()
         exc = sess.apply(act)
         res["calls"] += 1
         if (exc is None) != (act["out"] == "ok"):
             finding("outcome", "accepted" if exc is None else "raised_" + type(exc).__name__,
                     {"expected": act["out"], "observed": "ok" if exc is None else repr(exc)[:200]})
             return res
+        stamps1 = sess.stamps()
+        if not auto and stamps1 != stamps0:
+            res["findings"].append({"key": "dimlink/%s/timestamp_moved_with_auto_disabled" % klass(act), "owner": "C19",
+                                    "stage": "time", "detail": {"before": stamps0, "after": stamps1},
+                                    "replay": {"engine": "NixDimLink", "hist": tx["hist"], "act": act, "from": tx["from"],
+                                               "to": tx["to"], "seed": opts["seed"], "ranks": ranks}})
+        if any(stamps1[k][0] != stamps0[k][0] for k in stamps0):
+            res["findings"].append({"key": "dimlink/%s/created_at_changed" % klass(act), "owner": "C19", "stage": "time",
+                                    "detail": {"before": stamps0, "after": stamps1},
+                                    "replay": {"engine": "NixDimLink", "hist": tx["hist"], "act": act, "from": tx["from"],
+                                               "to": tx["to"], "seed": opts["seed"], "ranks": ranks}})
         exp_to = expected(tx["to"], ranks)
         views = [("host_A", project(sess.host, sess.targets)), ("host_B", project(sess.host_b, sess.targets)),
                  ("fresh", project(sess.blk.data_arrays["host"], {t: sess.blk.data_arrays[t] for t in ranks}))]
